@@ -77,8 +77,10 @@ def oracle_trigger(run):
                 c["flagload"] = (v, "activeLock" in h)
             elif c["op"] == "trigger" and t[1] == "activated":
                 c["flagload"] = (v, False)
-        elif k == "ast":
-            name, v = t[1], int(t[3])
+        elif k in ("ast", "axc") or (k == "cas" and len(t) > 5 and t[5] == "1"):
+            # any atomic WRITE of a flag counts (store, exchange, successful compare-exchange): the rules below are about the
+            # values the flags take and where, not about the instruction used
+            name, v = t[1], int(t[4] if k == "cas" else t[3])
             if LOCK_OF[name] not in h:
                 return "store to %s outside %s" % (name, LOCK_OF[name])
             if c is not None:
